@@ -349,3 +349,302 @@ func constInt64(v interface{ String() string }) (int64, bool) {
 	}
 	return n, true
 }
+
+// C17.R9 — wiring of the calculator's arguments (sweep of calcHermesBatch.main:
+// the counting and the range arithmetic were covered, the way the numbers get
+// there was not): "-size N" and "-list N" both take the node count from the
+// argument following the flag, "-batch F" counts the lines of F; the size
+// answer is printed exactly when -size was given, the list exactly when -list
+// was given (and -size was not).
+func c17CalcArgs(p *Prog, r *Report) {
+	r.Rule("C17.R9", "calculator arguments: the node count is the base-10 number following -size and -list (the same in both arms), the line count is what the line counter returns for the file following -batch; each flag variable is set only in the arm of its own flag; the size answer is printed under the size flag, the list under the list flag", 8)
+	fi := p.Funcs["calcHermesBatch.main"]
+	if fi == nil {
+		r.Ob("main", "-", false, "calcHermesBatch.main not found")
+		return
+	}
+	info := fi.Pkg.TypesInfo
+	body := fi.Decl.Body
+	var rng *ast.RangeStmt
+	ast.Inspect(body, func(n ast.Node) bool {
+		if rs, ok := n.(*ast.RangeStmt); ok && rng == nil && rs.Key != nil && rs.Value != nil {
+			rng = rs
+		}
+		return true
+	})
+	if rng == nil {
+		r.Ob("args:loop", p.Pos(fi.Decl.Pos()), false, "argument loop not recognised")
+		return
+	}
+	iObj, argObj, argsObj := useObj(info, rng.Key), useObj(info, rng.Value), useObj(info, rng.X)
+	isNext := func(e ast.Expr) bool {
+		ix, ok := stripParens(e).(*ast.IndexExpr)
+		if !ok || useObj(info, ix.X) != argsObj {
+			return false
+		}
+		s := normExpr(info, ix.Index, iObj)
+		return s == "($i + 1)" || s == "(1 + $i)"
+	}
+	flagOf := func(conds []astCond) (string, []string) {
+		flag := ""
+		var other []string
+		for _, c := range conds {
+			e := stripParens(c.E)
+			if be, ok := e.(*ast.BinaryExpr); ok && be.Op == token.EQL {
+				if useObj(info, be.X) == argObj {
+					if tv := info.Types[be.Y]; tv.Value != nil && tv.Value.Kind().String() == "String" {
+						if !c.Neg {
+							flag = strings.Trim(tv.Value.ExactString(), `"`)
+						}
+						continue
+					}
+				}
+			}
+			s := normExpr(info, e, iObj)
+			if !c.Neg && strings.Contains(s, "$i + 1") && strings.Contains(s, "len(") {
+				continue // a value follows
+			}
+			if c.Neg && c.Exit == nil {
+				continue // negation of an earlier arm of the chain
+			}
+			if c.Neg && c.Exit != nil {
+				if be, ok := e.(*ast.BinaryExpr); ok && be.Op == token.NEQ && types.ExprString(stripParens(be.Y)) == "nil" {
+					continue
+				}
+			}
+			other = append(other, c.String())
+		}
+		return flag, other
+	}
+	// stores in the loop
+	type store struct {
+		obj  types.Object
+		flag string
+		rhs  ast.Expr
+		pos  token.Pos
+		bad  []string
+	}
+	var stores []store
+	ast.Inspect(rng.Body, func(n ast.Node) bool {
+		as, ok := n.(*ast.AssignStmt)
+		if !ok || len(as.Lhs) != 1 || len(as.Rhs) != 1 || as.Tok != token.ASSIGN {
+			return true
+		}
+		o := useObj(info, as.Lhs[0])
+		if o == nil || (o.Pos() > rng.Pos() && o.Pos() < rng.End()) {
+			return true
+		}
+		conds, _ := astPathConds(info, rng.Body, as)
+		fl, other := flagOf(conds)
+		stores = append(stores, store{o, fl, as.Rhs[0], as.Pos(), other})
+		return true
+	})
+	// classify the outer variables by type and value
+	parsedNext := func(e ast.Expr) bool { // v with v, err := strconv.ParseUint(args[i+1], 10, 64)
+		o := useObj(info, e)
+		if o == nil {
+			return false
+		}
+		ds := defsOf(info, rng.Body, o)
+		for _, d := range ds {
+			if d.Stmt.Pos() > e.Pos() {
+				continue
+			}
+			c, ok := stripParens(d.Rhs).(*ast.CallExpr)
+			if !ok || d.Idx != 0 || len(c.Args) != 3 || !isNext(c.Args[0]) {
+				continue
+			}
+			f := callee(info, c)
+			tv := info.Types[c.Args[1]]
+			// the definition must be the nearest one before the use in the same block
+			if f != nil && f.FullName() == "strconv.ParseUint" && tv.Value != nil && tv.Value.String() == "10" {
+				path := nodePath(rng.Body, d.Stmt)
+				upath := nodePath(rng.Body, e)
+				if len(path) >= 2 && len(upath) >= 2 {
+					for _, a := range upath {
+						if a == path[len(path)-2] {
+							return true
+						}
+					}
+				}
+			}
+		}
+		return false
+	}
+	var nodesObj, linesObj, sizeFlag, listFlag types.Object
+	nodeArms := map[string]bool{}
+	okAll := true
+	for _, st := range stores {
+		tv := info.Types[st.rhs]
+		switch {
+		case tv.Value != nil && tv.Value.String() == "true":
+			switch st.flag {
+			case "-size":
+				sizeFlag = st.obj
+			case "-list":
+				listFlag = st.obj
+			default:
+				okAll = false
+			}
+			if len(st.bad) > 0 {
+				okAll = false
+			}
+			r.Ob("args:flag:"+st.obj.Name(), p.Pos(st.pos), (st.flag == "-size" || st.flag == "-list") && len(st.bad) == 0, fmt.Sprintf("%s set in the arm of %q%s", st.obj.Name(), st.flag, problems(st.bad)))
+		case parsedNext(st.rhs):
+			nodesObj = st.obj
+			nodeArms[st.flag] = true
+			r.Ob("args:nodes:"+st.flag, p.Pos(st.pos), (st.flag == "-size" || st.flag == "-list") && len(st.bad) == 0, fmt.Sprintf("%s = base-10 number following %q%s", st.obj.Name(), st.flag, problems(st.bad)))
+		default:
+			if c, ok := stripParens(st.rhs).(*ast.CallExpr); ok && len(c.Args) == 1 {
+				if f := callee(info, c); f != nil && f.Name() == "readProj" {
+					linesObj = st.obj
+					src := false
+					if o := useObj(info, c.Args[0]); o != nil {
+						for _, d := range defsOf(info, rng.Body, o) {
+							if isNext(d.Rhs) {
+								src = true
+							}
+						}
+					}
+					if isNext(c.Args[0]) {
+						src = true
+					}
+					r.Ob("args:lines", p.Pos(st.pos), st.flag == "-batch" && src && len(st.bad) == 0, fmt.Sprintf("%s = line count of the file following %q (file taken from the next argument: %v)%s", st.obj.Name(), st.flag, src, problems(st.bad)))
+					continue
+				}
+			}
+			r.Ob("args:store:"+st.obj.Name(), p.Pos(st.pos), false, "unrecognised store in the argument loop: "+types.ExprString(st.rhs))
+		}
+	}
+	r.Ob("args:nodes-both", p.Pos(rng.Pos()), nodesObj != nil && nodeArms["-size"] && nodeArms["-list"], fmt.Sprintf("the node count is read in the arms of -size and -list: %v", nodeArms))
+	if linesObj == nil {
+		r.Ob("args:lines", p.Pos(rng.Pos()), false, "the line count is never taken from the batch file")
+	}
+	// readProj returns the line counter's result for the file it was given
+	if rp := p.Funcs["calcHermesBatch.readProj"]; rp != nil {
+		ri := rp.Pkg.TypesInfo
+		okRP := false
+		var fileObj, cntObj types.Object
+		ast.Inspect(rp.Decl.Body, func(n ast.Node) bool {
+			as, ok := n.(*ast.AssignStmt)
+			if !ok || len(as.Rhs) != 1 {
+				return true
+			}
+			c, ok := as.Rhs[0].(*ast.CallExpr)
+			if !ok {
+				return true
+			}
+			f := callee(ri, c)
+			if f == nil {
+				return true
+			}
+			if f.FullName() == "os.Open" && len(c.Args) == 1 {
+				if _, isParam := paramIndex(rp.Decl, useObj(ri, c.Args[0])); isParam {
+					fileObj = useObj(ri, as.Lhs[0])
+				}
+			}
+			if f.Name() == "lineCounter" && len(c.Args) == 1 && fileObj != nil && useObj(ri, c.Args[0]) == fileObj {
+				cntObj = useObj(ri, as.Lhs[0])
+			}
+			return true
+		})
+		ast.Inspect(rp.Decl.Body, func(n ast.Node) bool {
+			if rs, ok := n.(*ast.ReturnStmt); ok && len(rs.Results) == 1 && cntObj != nil && useObj(ri, rs.Results[0]) == cntObj {
+				okRP = true
+			}
+			return true
+		})
+		r.Ob("args:count-source", p.Pos(rp.Decl.Pos()), okRP, "readProj opens the file it is given, counts its lines with the line counter and returns that count")
+	}
+	// the answers
+	if sizeFlag != nil && listFlag != nil {
+		var sizeIf, listIf *ast.IfStmt
+		for _, st := range body.List {
+			if is, ok := st.(*ast.IfStmt); ok {
+				if useObj(info, is.Cond) == sizeFlag {
+					sizeIf = is
+				}
+				if useObj(info, is.Cond) == listFlag {
+					listIf = is
+				}
+			}
+		}
+		prints := func(b *ast.BlockStmt) bool {
+			found := false
+			ast.Inspect(b, func(n ast.Node) bool {
+				if c, ok := n.(*ast.CallExpr); ok {
+					if f := callee(info, c); f != nil && f.FullName() == "fmt.Print" {
+						found = true
+					}
+				}
+				return true
+			})
+			return found
+		}
+		okAns := sizeIf != nil && listIf != nil && prints(sizeIf.Body) && prints(listIf.Body) && sizeIf.Pos() < listIf.Pos()
+		r.Ob("args:answers", p.Pos(fi.Decl.Pos()), okAns, "the size answer is printed in a block entered exactly when the size flag is set, the list in a block entered exactly when the list flag is set")
+	} else {
+		r.Ob("args:answers", p.Pos(fi.Decl.Pos()), false, "size and list flag variables not both recognised")
+	}
+	_ = okAll
+}
+
+// c17Separators (R8): ranges are separated by a blank; the format without the
+// trailing blank may be used for the last range of a loop only.
+func c17Separators(p *Prog, r *Report) {
+	fi := p.Funcs["calcHermesBatch.main"]
+	if fi == nil {
+		return
+	}
+	info := fi.Pkg.TypesInfo
+	n, bad := 0, ""
+	ast.Inspect(fi.Decl.Body, func(m ast.Node) bool {
+		bl, ok := m.(*ast.BasicLit)
+		if !ok || bl.Kind != token.STRING {
+			return true
+		}
+		tv := info.Types[bl]
+		if tv.Value == nil {
+			return true
+		}
+		str := strings.Trim(tv.Value.ExactString(), `"`)
+		if !strings.Contains(str, "%d-%d") {
+			return true
+		}
+		n++
+		if strings.HasSuffix(str, " ") {
+			return true
+		}
+		// enclosing counted loop and its bound
+		var loop *ast.ForStmt
+		for _, a := range nodePath(fi.Decl.Body, bl) {
+			if f, ok := a.(*ast.ForStmt); ok {
+				loop = f
+			}
+		}
+		if loop == nil {
+			bad += fmt.Sprintf("%s: a range format without separator outside a loop; ", p.Pos(bl.Pos()))
+			return true
+		}
+		cb, ok := loop.Cond.(*ast.BinaryExpr)
+		if !ok || cb.Op != token.LEQ {
+			bad += fmt.Sprintf("%s: loop bound not of the form i <= last; ", p.Pos(bl.Pos()))
+			return true
+		}
+		iObj, lastObj := useObj(info, cb.X), useObj(info, cb.Y)
+		conds, _ := astPathConds(info, loop.Body, bl)
+		isLast := false
+		for _, c := range conds {
+			if be, ok := stripParens(c.E).(*ast.BinaryExpr); ok && !c.Neg && be.Op == token.EQL {
+				if (useObj(info, be.X) == iObj && useObj(info, be.Y) == lastObj) || (useObj(info, be.Y) == iObj && useObj(info, be.X) == lastObj) {
+					isLast = true
+				}
+			}
+		}
+		if !isLast || iObj == nil || lastObj == nil {
+			bad += fmt.Sprintf("%s: the format without trailing blank is used under [%s], not only for the last range; ", p.Pos(bl.Pos()), joinConds(conds))
+		}
+		return true
+	})
+	r.Ob("separators", p.Pos(fi.Decl.Pos()), n >= 4 && bad == "", fmt.Sprintf("%d range formats; every range but the last of a loop is followed by a blank (two ranges printed without separator read as one): %s", n, orStr(bad, "ok")))
+}
